@@ -357,14 +357,9 @@ func vpHT_C07_heartbeat_p4b() { vpOpt("unwind", 10); vpHeartbeatStep(4, vpParams
 // (P=5 with (4,2,4,1,1) was tried: 578k terms, the solver does not even decide satisfiability of the assumptions in 600 s — outside)
 // outbound quota: Dout=1 with a mesh that is within [Dlo,Dhi) — the step "do we have enough outbound peers?" runs alone
 func vpH_C07_heartbeat_out() { vpOpt("unwind", 10); vpHeartbeatStep(3, vpParamsTuple(4, 2, 4, 1, 1), 0) }
-// over-subscription WITH an outbound quota (needs D >= 4, hence P >= 5): membership concrete (all five peers are mesh
-// members), scores and connection directions symbolic, any permutation for the shuffle: the cut to D keeps the Dscore
-// best and rotates outbound members in until Dout of them are kept.
-func vpHT_C07_heartbeat_cut5() {
-	vpOpt("unwind", 12)
-	vpOpt("idshuffle", 1) // ONE outcome of the two shuffles (identity); the order among equal scores is then the map walk's
-	vpHeartbeatStepX(5, vpParamsTuple(4, 2, 4, 1, 1), 0, true)
-}
+// (over-subscription WITH an outbound quota needs D >= 4, hence P >= 5: tried with membership concrete and only scores and
+// connection directions symbolic - any permutation: no result in 50 minutes; identity shuffle: 16 minutes of evaluation
+// alone, then the queries did not finish in the 25 minutes given. Outside; vpHeartbeatStepX(5, ..., true) is kept for it.)
 func vpH_C07_heartbeat_zero() { vpOpt("unwind", 10); vpHeartbeatStep(3, vpParamsTuple(0, 0, 0, 0, 0), 0) }
 
 // graftprune: the heartbeat's coalescing sender. Arbitrary per-peer GRAFT and PRUNE topic lists over two topics (a peer
